@@ -90,7 +90,8 @@ class H11ConnModel:
         # protocol nobody else touches the connection
         us = interp.unit_self
         if us is not None and us.fields.get("connection") is obj and "stream" in us.fields:
-            st = us.fields["stream"]
+            pre = getattr(interp, "pre_havoc_self", None)
+            st = (pre if pre is not None else us).fields["stream"]
             if st is None or (hasattr(st, "is_none") and interp.ctx.decided(st.is_none) is True):
                 return
         keep = {k: obj.fields[k] for k in ("role", "max_incomplete_event_size") if k in obj.fields}
